@@ -46,6 +46,7 @@ def run(ctx):
     r.rule("C05.8", "bytes are decoded by the codec of the encoding object the label resolved to", floor=1)
     from .c06 import decoder_rule
     decoder_rule(ctx, "C05.8")
+    stream_reset(ctx, "C05.9")
     r.rule("C05.1", "CR LF replacement precedes lone CR replacement on the same variable", floor=1)
     r.rule("C05.2", "carry-over stores are paired (buffer<->truncate, re-inject<->clear)", floor=2)
     r.rule("C05.3", "every non-empty read evaluates the trailing-CR / lead-surrogate test before normalisation", floor=2)
@@ -286,6 +287,39 @@ def replay_buffer(ctx):
                 "empty input on a non-seekable byte stream the sniffers' seek(0) raises IndexError" % (
                     "recorded the chunk" if label == "chunk-appended" else "advanced the position", " -> ".join(bad[0][1][:5]) if bad else ""),
                 detail={"seek_indexes_buffer": indexes, "seek_guarded": guarded_seek})
+
+
+def stream_reset(ctx, rid="C05.9"):
+    """The input stream is restarted *within* a parse (changeEncoding -> reset()).  Every attribute that the reading methods
+    (readChunk, char, charsUntil, unget, position bookkeeping) write has to be re-initialised on every path of reset();
+    initialising it in __init__ only lets line/column counters, the held-back character or the chunk survive the restart."""
+    from .c12 import must_stores
+    r = ctx.r
+    r.rule(rid, "HTMLUnicodeInputStream.reset() re-initialises every attribute the reading methods write", floor=5)
+    cls = ctx.repo.cls(REL, "HTMLUnicodeInputStream")
+    rs = cls.methods.get("reset")
+    if rs is None:
+        raise AnalysisError("HTMLUnicodeInputStream.reset vanished")
+    must, _calls = must_stores(rs)
+    written = {}
+    for mn, m in cls.methods.items():
+        if mn in ("__init__", "reset", "openStream"):
+            continue
+        for n in walk_no_nested(m.node):
+            if isinstance(n, (ast.Assign, ast.AugAssign)):
+                for t in (n.targets if isinstance(n, ast.Assign) else [n.target]):
+                    for e in (t.elts if isinstance(t, ast.Tuple) else [t]):
+                        ch = attr_chain(e)
+                        if ch and len(ch) == 2 and ch[0] == "self":
+                            written.setdefault(ch[1], set()).add(mn)
+    if len(written) < 5:
+        raise AnalysisError("only %d attributes written by the reading methods were found" % len(written))
+    for attr, writers in sorted(written.items()):
+        r.check(rid, attr in must, "stream-reset::%s" % attr, rs.where,
+                "self.%s is written while reading (%s) but reset() does not re-initialise it on every path: after the restart that a "
+                "late <meta charset> triggers, the second pass starts with the first pass's value (line/column numbers of errors "
+                "point outside the input, a held-back character is replayed, ...)" % (attr, sorted(writers)),
+                {"attribute": attr}, detail={"attribute": attr, "writers": sorted(writers)})
 
 
 def thorough(ctx):
